@@ -1396,6 +1396,66 @@ def subst_closure(cf, body, params, caps):
     return map_tree(body, one)
 
 
+def _edge_conds(fn, block, skip_blocks=()):
+    """(cond, label) of every switch edge that dominates `block` (single-predecessor targets), `?` propagation and loop drivers
+    left out, in dominance order"""
+    out = []
+    for s_ in fn.switches():
+        if s_['block'] in skip_blocks:
+            continue
+        c = s_['cond']
+        if c[0] == 'discr' and strip(c[1])[0] == 'call' and (strip(c[1])[3] == TRY_BRANCH or strip(c[1])[3].endswith('Iterator::next')):
+            continue
+        for lab, tgt in s_['edges']:
+            if fn.dominates(tgt, block) and fn.pred(tgt) == [s_['block']]:
+                out.append((s_['block'], c, lab))
+    out.sort(key=lambda x: sum(1 for y in out if fn.dominates(y[0], x[0])))
+    return out
+
+
+def value_table(fn, e, depth=0):
+    """decision table of a value: [(conditions, value expression)] where conditions is a list of (switch condition, label).
+    A local with several definitions contributes one row per definition under the branch conditions that separate the
+    definitions; `opt.unwrap_or_else(|| ..)` / `unwrap_or(..)` contribute the row `opt is Some -> its payload` and the rows of
+    the fallback under `opt is None`.  The spelling (closure, match with guards, if/else) does not matter."""
+    P = fn.prog
+    e0 = strip(e)
+    if depth > 4:
+        return [([], e0)]
+    if e0[0] == 'var' and not (1 <= e0[1] <= fn.nargs):
+        ds = fn.defs().get(e0[1], [])
+        if len(ds) >= 2 and len(ds) <= 6:
+            per = [(d, _edge_conds(fn, d[0])) for d in ds]
+            common = None
+            for d, cs in per:
+                keyset = {(b, repr(c), lab) for b, c, lab in cs}
+                common = keyset if common is None else (common & keyset)
+            rows = []
+            for d, cs in per:
+                own = [(c, lab) for b, c, lab in cs if (b, repr(c), lab) not in common]
+                de = fn.expr_of_def(d)
+                if any(y == e0 for y in walk(de)):
+                    rows.append((own, ('self-referential', de)))
+                    continue
+                for c2, v2 in value_table(fn, de, depth + 1):
+                    rows.append((own + c2, v2))
+            return rows
+        if len(ds) == 1:
+            return value_table(fn, fn.expr_of_def(ds[0]), depth + 1) if fn.expr_of_def(ds[0]) != e0 else [([], e0)]
+    if e0[0] == 'call' and re.search(r'Option::<T>::unwrap_or_else$', e0[1]) and len(e0[2]) == 2 and e0[2][1][0] == 'closure' and e0[2][1][1] in P.fns:
+        X = e0[2][0]
+        cf = P.fns[e0[2][1][1]]
+        rows = [([(('discr', X), 'Some')], ('payload', X, 'Some', 0))]
+        for x in cf.exits():
+            cs = [(subst_closure(cf, expand(cf, c), [], e0[2][1][2]), lab) for b, c, lab in _edge_conds(cf, x['block'])]
+            rows.append(([(('discr', X), 'None')] + cs, subst_closure(cf, expand(cf, x['expr']), [], e0[2][1][2])))
+        return rows
+    if e0[0] == 'call' and re.search(r'Option::<T>::unwrap_or$', e0[1]) and len(e0[2]) == 2:
+        X = e0[2][0]
+        return [([(('discr', X), 'Some')], ('payload', X, 'Some', 0)), ([(('discr', X), 'None')], e0[2][1])]
+    return [([], e0)]
+
+
 def is_membership(P, e, depth=0):
     """`e` tests whether a key is present in the registry's map: contains_key on it, or a call of an in-crate wrapper whose
     only exit is such a test on its receiver's own map (`fn contains(&self, p) -> bool { self.types.contains_key(p) }`)"""
